@@ -214,6 +214,12 @@ def run_check(pid, tier, seed, workers=None, cases=None, quiet=False):
         # hash randomisation is not what C07 varies; one hash seed everywhere makes the echo worker
         # differ from the sweep workers in exactly one thing: which histories ran earlier in the process
         hs = [0] * W
+    # interpreter options are one more configuration dimension: a few sweep workers run under -O
+    # (asserts stripped, __debug__ false) or with the debug allocator
+    hs = list(hs)
+    for i, flag in ((3, "O"), (11, "O"), (7, "malloc_debug")):
+        if i < len(hs):
+            hs[i] = "%s:%s" % (hs[i], flag)
     echo_hs = 0 if pid == "C07" else 987654321
     print("VERIF_SEED=%d property=%s tier=%s cases=%d workers=%d d42=%s digest=%s" % (
         seed, pid, tier, n, W, d42_src(), src_digest()), flush=True)
